@@ -372,7 +372,7 @@ func c03Sequences(r *vf.Run) {
 		ids = append(ids, fmt.Sprintf("seq%02d", i))
 	}
 	// two regression sequences from the defect that was repaired
-	ids = append(ids, "regress-xor")
+	ids = append(ids, "regress-xor", "sep-names", "absent-storm")
 	r.ForEach(ids, 12, func(id string) {
 		rng := r.RNG(id)
 		var ds *gen.Dataset
@@ -389,6 +389,42 @@ func c03Sequences(r *vf.Run) {
 				{e: oracle.And(a, a)}, {e: oracle.And(b, b, c, c)}, {e: oracle.Or(a, a)}, {e: oracle.Or(b, b, c, c)},
 				{e: oracle.And(a, b)}, {e: oracle.Or(a, b)}, {e: oracle.Not(a)}, {e: a}, {e: oracle.And(a)}, {e: oracle.Or(a)}, {e: oracle.Not(oracle.Not(a))},
 			}
+		} else if id == "sep-names" {
+			// column names that are joins of other column names under the usual separators: two group-by lists over the same
+			// expression must never be mistaken for each other
+			names := []string{"a", "b", "a,b", "b,a", "a,b,a", "a b", "a|b", "a;b", "a/b", "ab"}
+			ds = &gen.Dataset{ID: id}
+			for i := 0; i < 240; i++ {
+				row := oracle.Row{}
+				for k, n := range names {
+					if (i+k)%7 != 0 {
+						row[n] = fmt.Sprint((i / (k + 1)) % (2 + k%3))
+					}
+				}
+				ds.Rows = append(ds.Rows, row)
+			}
+			ds.Index()
+			lists := [][]string{{"a", "b"}, {"a,b"}, {"b", "a"}, {"b,a"}, {"a", "b", "a"}, {"a,b,a"}, {"a,b", "a"}, {"a", "b,a"}, {"a b"}, {"a|b"}, {"a;b"}, {"a/b"}, {"ab"}, {"a", "b"}, {"a,b"}}
+			for _, e := range []*oracle.Expr{oracle.Eq("a", "1"), oracle.Not(oracle.Eq("b", "0")), oracle.And(oracle.Eq("a", "1"), oracle.Eq("ab", "1")), oracle.And(oracle.Eq("ab", "1"), oracle.Eq("a", "1"))} {
+				for _, l := range lists {
+					qs = append(qs, seqQuery{e: e, gb: l})
+				}
+			}
+		} else if id == "absent-storm" {
+			// tens of thousands of lookups of values that do not occur, then every value that does: whatever remembers
+			// "not there" in less than the full key says it about some value that is there
+			ds = &gen.Dataset{ID: id}
+			for i := 0; i < 3000; i++ {
+				ds.Rows = append(ds.Rows, oracle.Row{"v": fmt.Sprintf("present-%d", i), "w": fmt.Sprint(i % 4)})
+			}
+			ds.Index()
+			for i := 0; i < r.Pick(40000, 200000); i++ {
+				qs = append(qs, seqQuery{e: oracle.Eq("v", fmt.Sprintf("absent-%d", i))})
+			}
+			for i := 0; i < 3000; i++ {
+				qs = append(qs, seqQuery{e: oracle.Eq("v", fmt.Sprintf("present-%d", i))})
+			}
+			qs = append(qs, seqQuery{e: oracle.Eq("w", "1"), gb: []string{"v"}})
 		} else {
 			rows := []int{0, 1, 300, 1500, 5000, 70000}[rng.Intn(6)]
 			if r.Quick() && rows > 5000 {
